@@ -40,19 +40,26 @@ func Distinct(v reflect.Value) interface{} {
 	if jtypes.IsArray(v) {
 		items := arrayify(v)
 		visited := make(map[interface{}]struct{})
+		var composites []interface{}
 		distinctValues := reflect.MakeSlice(reflect.SliceOf(typeInterface), 0, 0)
 
+	Loop:
 		for i := 0; i < items.Len(); i++ {
 			item := jtypes.Resolve(items.Index(i))
 
-			if jtypes.IsMap(item) {
-				// We can't hash a map, so convert it to a
-				// string that is hashable
-				mapItem := fmt.Sprint(item.Interface())
-				if _, ok := visited[mapItem]; ok {
-					continue
+			if !item.IsValid() || !item.CanInterface() {
+				continue
+			}
+
+			if !item.Type().Comparable() {
+				// Maps, arrays and function values can't be
+				// used as map keys. Compare them by value.
+				for _, c := range composites {
+					if reflect.DeepEqual(c, item.Interface()) {
+						continue Loop
+					}
 				}
-				visited[mapItem] = struct{}{}
+				composites = append(composites, item.Interface())
 				distinctValues = reflect.Append(distinctValues, item)
 
 				continue
